@@ -919,8 +919,9 @@ func (r *run) applyContractSig(fr *frame, cur *node, callee string, fc *contract
 		short = short[i+1:]
 	}
 	for k, cl := range fc.Requires {
-		g := en.evalBool(cl.Expr)
-		for j, cj := range r.C().SplitGoal(g) {
+		gparts := en.evalGoalParts(cl.Expr)
+		g := r.C().And(gparts...)
+		for j, cj := range gparts {
 			name := fmt.Sprintf("%spre[%s.%d", fr.path, callee, k)
 			if j > 0 {
 				name += fmt.Sprintf(".c%d", j)
@@ -960,6 +961,19 @@ func (r *run) applyContractSig(fr *frame, cur *node, callee string, fc *contract
 		return res, after
 	}
 	for _, cl := range fc.Ensures {
+		if cl.Foreach != nil {
+			fis, err := r.E.foreachInstances(cl.Foreach, pkg)
+			if err != nil {
+				r.fail("ensures of %s: %v", callee, err)
+				continue
+			}
+			for _, fi := range fis {
+				sub := en2.child()
+				sub.vars[fi.Var] = fi.Val
+				r.assume(after.alive, sub.evalBool(cl.Expr))
+			}
+			continue
+		}
 		r.assume(after.alive, en2.evalBool(cl.Expr))
 	}
 	return res, after
@@ -1018,8 +1032,7 @@ func (fr *frame) runInvariantLoop(l *loop, spec *contract.LoopSpec, iter []int) 
 	checkInv := func(at *node, kind string) {
 		en := fr.loopEnv(l, at, pkg)
 		for k, cl := range spec.Invariants {
-			g := en.evalBool(cl.Expr)
-			for j, cj := range r.C().SplitGoal(g) {
+			for j, cj := range en.evalGoalParts(cl.Expr) {
 				name := fmt.Sprintf("%sinv[%d.%d", fr.path, l.ordinal, k)
 				if j > 0 {
 					name += fmt.Sprintf(".c%d", j)
